@@ -91,6 +91,36 @@ CHECKS = {
    design_ref='DESIGN.md 6 (C12)',
    note='The decision of the model and of the command agreed on every replayed case (binding); error type of rejections is checked too.',
    technique='TLA+ transcription + TLC enumeration of perturbed evolutions + replay through the management command'),
+ 'C01': dict(
+   engine='mutseq', category='model_checking',
+   text=('Schema.tla (on Sig/Optimizer) defines Fresh(sig) -- the schema Django creates for a signature -- and the intended '
+         'operational effect of every mutation on an abstract database; TLC checks SchemaIsFresh, UntouchedTablesEqual and '
+         'Realisable for every valid sequence in scope (relations, unique_together, unique/indexed columns, name reuse). '
+         'Each sequence is executed on real SQLite databases (index bookkeeping scanned from the database) one mutation at a time, '
+         'as one AppMutator run and through Evolver+EvolveAppTask, and the resulting schema compared with the schema Django '
+         'creates from scratch for the evolved models, plus PRAGMA foreign_key_check / integrity_check.'),
+   design_ref='DESIGN.md 3.3, 6 (C01)',
+   note='Fresh oracle used only when the rendered models have an empty diff with the evolved signature. Column order, index names and AUTOINCREMENT are ignored.',
+   technique='TLA+ design model + TLC enumeration + spec-to-code replay with fresh-creation oracle'),
+ 'C02': dict(
+   engine='mutseq', category='model_checking',
+   text=('The signature model carries a ghost data component per column (original / NULLs filled / initial everywhere / NULL '
+         'everywhere) through every mutation; TLC checks OptSameData / TwoPassSameData over all valid sequences. The replay '
+         'inserts rows (NULLs, empty strings, quotes, percent signs, negative numbers, FK links) before the evolution and compares '
+         'every surviving cell, added-column initials and NULL replacement with an independent row reference, for all three pipelines.'),
+   design_ref='DESIGN.md 3.3, 6 (C02)',
+   note='Row palette is fixed; retyped columns are compared modulo SQLite type affinity.',
+   technique='TLA+ ghost-data model + TLC enumeration + replay with row-level reference'),
+ 'C11': dict(
+   engine='refs', category='model_checking',
+   text=('Refs.tla reduces a project signature to its cross-references and transcribes the relation-relevant part of '
+         'RenameModel, RenameAppLabel, RenameField, DeleteField, DeleteModel, DeleteApplication; TLC checks NoDangling and the '
+         'action property RenameRewritesAll for every assignment of relation targets across two apps and every sequence up to '
+         'the bound. Every behaviour is replayed into the real simulate() methods on a real ProjectSignature (names that are '
+         'prefixes of one another) and the signature walked after each step.'),
+   design_ref='DESIGN.md 6 (C11)',
+   note='Signature level; the database-level half (foreign_key_check after execution) is part of the C01 check.',
+   technique='TLA+ transcription + TLC exhaustive enumeration + spec-to-code replay'),
 }
 
 NOT_YET = {
@@ -132,8 +162,12 @@ def main():
         'engines': [
             {'name': 'graph', 'path': 'harness/engines/graph.py', 'serves_properties': ['C09'],
              'kind_free_text': 'TLC-enumerated dependency graphs replayed into DependencyGraph'},
-            {'name': 'mutseq', 'path': 'harness/engines/mutseq.py', 'serves_properties': ['C03', 'C18'],
+            {'name': 'mutseq', 'path': 'harness/engines/mutseq.py', 'serves_properties': ['C01', 'C02', 'C03', 'C18'],
              'kind_free_text': 'TLC-enumerated mutation sequences replayed through three real pipelines on SQLite'},
+            {'name': 'refs', 'path': 'harness/engines/refs.py', 'serves_properties': ['C11'],
+             'kind_free_text': 'TLC-enumerated reference graphs and rename/delete sequences replayed into real simulate() methods'},
+            {'name': 'evograph', 'path': 'harness/engines/evograph.py', 'serves_properties': ['C09'],
+             'kind_free_text': 'projects with dependency declarations; executed order judged against requirements'},
             {'name': 'runs', 'path': 'harness/engines/runs.py', 'serves_properties': ['C04', 'C07', 'C08', 'C12', 'C17'],
              'kind_free_text': 'TLC-generated run histories replayed on a synthetic Django project (one interpreter per run); recorded traces validated by EvolverTrace.tla'},
         ],
